@@ -8,6 +8,7 @@
 //        I <x0> <f0> <g0> E <events> { U <fx> <x> <gx> | L <ok> <x> <gx> <fx> | D <iter_ok> <converged> <fcalls> <gcalls> <x> <fx> <gx> }
 // The part after `M` is what the Lean model recomputes from the oracle answers of the A line.
 #include "c01_common.h"
+#include <nano/core/numeric.h>
 
 using namespace vs;
 
@@ -35,6 +36,164 @@ bool is_in(const std::string& s, std::initializer_list<const char*> set)
     }
     return false;
 }
+
+// family `solvernm`: the solvers whose iteration body is in the Lean model (Model/SolverNM.lean).
+//   A <op line> | <sid> <n> <eps> <max_evals> PF <scalar parameters> PI <integer parameters> <smooth> <strong convexity> <epsilon0>
+//        X <x0> N <count> { <with gradient> <x> <f(x)> <g(x)> }   -- the wrapper's log of ALL evaluations, in call order
+//        H <count> { <alpha> <eta> <gamma> <fb> <h> <u> <xb> }    -- osga's private variables per iteration (optional hook osga.iter)
+//   R … M <status> <x> <fx> <gx> <fcalls> <gcalls> Q <n> {<x>} U <n> {<fx> <best before> <x>} D <n> {<iter_ok> <converged> <fcalls> <gcalls> <fx>}
+// the model gets the answers f, g by position only and recomputes every point, candidate and decision.
+std::string execute_nm(const vs::run_t& r, std::string& aug, out_t& res)
+{
+    const auto  n      = static_cast<size_t>(r.problem.plain->size());
+    const auto& solver = *r.solver;
+    const auto& st     = r.state;
+
+    std::vector<double>    pf;
+    std::vector<long long> pi;
+    const auto F = [&](const char* name) { pf.push_back(solver.parameter(name).value<scalar_t>()); };
+    const auto I = [&](const char* name) { pi.push_back(solver.parameter(name).value<tensor_size_t>()); };
+    if (r.sid == "sgm")
+    {
+        F("solver::sgm::power");
+        I("solver::sgm::patience");
+    }
+    else if (r.sid == "cocob")
+    {
+        F("solver::cocob::L0-smooth");
+        F("solver::cocob::L0-nonsmooth");
+        I("solver::cocob::patience");
+    }
+    else if (r.sid == "sda" || r.sid == "wda")
+    {
+        F("solver::pdsgm::D");
+        I("solver::pdsgm::patience");
+    }
+    else if (r.sid == "pgm" || r.sid == "dgm" || r.sid == "fgm")
+    {
+        F("solver::universal::L0");
+        I("solver::universal::patience");
+        I("solver::universal::lsearch_max_iters");
+    }
+    else if (r.sid == "asga2" || r.sid == "asga4")
+    {
+        F("solver::asga::L0");
+        F("solver::asga::gamma1");
+        F("solver::asga::gamma2");
+        I("solver::asga::patience");
+        I("solver::asga::lsearch_max_iters");
+    }
+    else if (r.sid == "osga")
+    {
+        F("solver::osga::lambda");
+        F("solver::osga::alpha_max");
+        const auto kappas = solver.parameter("solver::osga::kappas").value_pair<scalar_t>();
+        pf.push_back(std::get<0>(kappas));
+        pf.push_back(std::get<1>(kappas));
+        I("solver::osga::patience");
+    }
+    else
+    {
+        throw bad_op("solvernm: the body of this solver is not modelled");
+    }
+
+    res << st.fcalls() << st.gcalls();
+    const auto& evs = r.log->evs;
+    size_t      doubles = 0;
+    for (const auto& e : evs)
+    {
+        doubles += 2 * n + 4;
+        (void)e;
+    }
+    const bool traced = doubles <= max_doubles && !evs.empty();
+
+    res << "Q" << static_cast<long long>(evs.empty() ? 0 : evs.size() - 1);
+    for (size_t i = 1; i < evs.size(); ++i)
+    {
+        put_vec(res, evs[i].x.data(), n);
+    }
+    out_t us, ds;
+    long long nU = 0, nD = 0;
+    for (const auto& rec : r.records)
+    {
+        const auto& v = rec.v;
+        if (rec.tag == "state.update_if_better")
+        {
+            // fx, m_fx, x, gx
+            us << v[0] << v[1];
+            put_vec(us, &v[3], n);
+            ++nU;
+        }
+        else if (rec.tag == "solver.done")
+        {
+            // iter_ok, converged, valid, fx, gradient test, fcalls, gcalls, x, gx
+            ds << static_cast<long long>(v[0]) << static_cast<long long>(v[1]) << static_cast<long long>(v[5])
+               << static_cast<long long>(v[6]) << v[3];
+            ++nD;
+        }
+    }
+    res << "U" << nU;
+    if (nU > 0)
+    {
+        res << us.str();
+    }
+    res << "D" << nD;
+    if (nD > 0)
+    {
+        res << ds.str();
+    }
+    if (!traced)
+    {
+        return res.str(); // the A line stays the op line: no model run
+    }
+
+    out_t a;
+    a << aug << "|" << r.sid << static_cast<long long>(n) << solver.parameter("solver::epsilon").value<scalar_t>()
+      << static_cast<long long>(solver.parameter("solver::max_evals").value<tensor_size_t>());
+    a << "PF" << static_cast<long long>(pf.size());
+    for (const auto v : pf)
+    {
+        a << v;
+    }
+    a << "PI" << static_cast<long long>(pi.size());
+    for (const auto v : pi)
+    {
+        a << v;
+    }
+    a << (r.problem.smooth ? 1 : 0) << r.problem.plain->strong_convexity() << nano::epsilon0<scalar_t>();
+    a << "X";
+    put_vec(a, r.x0.data(), n);
+    a << "N" << static_cast<long long>(evs.size());
+    for (const auto& e : evs)
+    {
+        a << (e.has_g ? 1 : 0);
+        put_vec(a, e.x.data(), n);
+        a << e.f;
+        put_vec(a, e.g.data(), e.g.size());
+    }
+    // optional hook `osga.iter` (hooks/C02-osga-iter.patch): the private variables at the top of every iteration
+    // alpha, eta, gamma, fb, h, u, xb — lets the model be re-synchronised per iteration
+    long long nH = 0;
+    out_t     hs;
+    for (const auto& rec : r.records)
+    {
+        if (rec.tag == "osga.iter" && rec.v.size() == 4 + 3 * (n + 1))
+        {
+            hs << rec.v[0] << rec.v[1] << rec.v[2] << rec.v[3];
+            put_vec(hs, &rec.v[5], n);
+            put_vec(hs, &rec.v[5 + n + 1], n);
+            put_vec(hs, &rec.v[5 + 2 * (n + 1)], n);
+            ++nH;
+        }
+    }
+    a << "H" << nH;
+    if (nH > 0)
+    {
+        a << hs.str();
+    }
+    aug = a.str();
+    return res.str();
+}
 } // namespace
 
 std::string vh::execute(toks_t& t, std::string& aug)
@@ -45,10 +204,11 @@ std::string vh::execute(toks_t& t, std::string& aug)
     {
         return vs::list_functions();
     }
-    if (fam != "solver2" || op != "run")
+    if ((fam != "solver2" && fam != "solvernm") || op != "run")
     {
         throw bad_op("unknown op");
     }
+    const auto  nmfam  = fam == "solvernm";
     auto        r      = vs::run(t);
     const auto  n      = static_cast<size_t>(r.problem.plain->size());
     const auto& solver = *r.solver;
@@ -136,6 +296,11 @@ std::string vh::execute(toks_t& t, std::string& aug)
     put_vec(res, st.x().data(), static_cast<size_t>(st.x().size()));
     res << st.fx();
     put_vec(res, st.gx().data(), static_cast<size_t>(st.gx().size()));
+
+    if (nmfam)
+    {
+        return execute_nm(r, aug, res);
+    }
 
     if (!traced)
     {
